@@ -2,7 +2,7 @@
    snapping zones (s < 1e-5): the zero branch (c > 0) and the half-turn branch (c <= 0). *)
 From Coq Require Import ZArith Reals Lra Psatz List Bool Lia Nsatz.
 From PW Require Import Num NumR Vec Mat NpList Result.
-From PW.model Require Import M_rodrigues M_rodrigues_spec.
+From PW.model Require Import M_rodrigues M_rodrigues_spec M_rodrigues_exact.
 From PW.proofs Require Import P_vec P_mat P_rodrigues P_rodrigues_inv P_rodrigues_jac P_rodrigues_rt.
 Import ListNotations.
 Local Open Scope R_scope.
@@ -176,7 +176,6 @@ Proof.
 Qed.
 
 (* ---- witnesses: rotations about x by an angle with rational cosine and sine ----------------------------------- *)
-Definition rot_x (c s : R) : mat3 R := M3 1 0 0 0 c (- s) 0 s c.
 Lemma rot_x_facts c s : c * c + s * s = 1 -> 0 <= s ->
   proper (rot_x c s) /\ rod_inv_s ROps (rot_x c s) = s /\ rod_inv_c ROps (rot_x c s) = c.
 Proof.
@@ -229,4 +228,57 @@ Proof.
     + apply small_sine_small_angle; [lra | exact Hsm | exact Hs].
     + unfold vnorm. f_equal. destruct r; vunf. ring.
   - unfold rod_small, nfrac; rops. lra.
+Qed.
+
+(* ---- the literal round trip fails next to pi: the first component of the returned vector is never negative ---------- *)
+Lemma inv_halfturn_zone_first_nonneg proj m : proj_ok proj -> proper m ->
+  rod_inv_s ROps m < rod_small ROps -> rod_inv_c ROps m <= 0 ->
+  exists v, rodrigues_inv ROps proj m = Some v /\ 0 <= vx v.
+Proof.
+  intros Hp Hm Hs Hc. destruct (proper_facts m Hm) as (Hs0 & Hcs & Hcb & Hic).
+  rewrite Hic in Hc. set (c := (trace3 m - 1) * / 2) in *.
+  pose proof (acos_nonpos_ge c ltac:(lra)) as Hth. pose proof PI_RGT_0 as Hpi.
+  assert (Hn : vnorm ROps (rod_half_axis ROps m) <> 0).
+  { intros E. pose proof (half_axis_norm2_ge m) as Hq. rewrite <- vnorm_sq, E in Hq. fold c in Hcb. unfold c in Hcb. lra. }
+  pose proof (vnorm_nonneg (rod_half_axis ROps m)) as Hn0.
+  exists (vscale ROps (ndiv ROps (acos c) (vnorm ROps (rod_half_axis ROps m))) (rod_half_axis ROps m)).
+  split.
+  - unfold rodrigues_inv. destruct Hm as (Ho & _). rewrite (Hp m Ho). unfold rodrigues_inv_of_proj, rod_inv_theta.
+    rewrite Hic. change (nltb ROps) with Rltb. change (neqb ROps) with Reqb.
+    rewrite (proj2 (Rltb_true _ _)) by exact Hs.
+    rewrite (proj2 (Rltb_false _ _)) by (unfold n0; rops; lra).
+    rewrite (proj2 (Reqb_false _ _)) by exact Hn. reflexivity.
+  - set (n := vnorm ROps (rod_half_axis ROps m)) in *. clearbody n.
+    unfold vscale. cbn [vx]. change (ndiv ROps (acos c) n) with (acos c / n). change (nmul ROps) with Rmult.
+    apply Rmult_le_pos.
+    + apply Rmult_le_pos; [lra | left; apply Rinv_0_lt_compat; lra].
+    + unfold rod_half_axis. cbn [vx]. unfold rod_diag_root. change (nsqrt ROps) with sqrt. apply sqrt_pos.
+Qed.
+
+Lemma vnorm_neg_x t : 0 <= t -> vnorm ROps (V3 (- t) 0 0) = t.
+Proof.
+  intros Ht. unfold vnorm, vnorm2, vdot; rops; cbn [vx vy vz].
+  replace (- t * - t + 0 * 0 + 0 * 0) with (t * t) by ring. apply sqrt_square, Ht.
+Qed.
+
+(* witness: r = (-(pi - 1e-5/2), 0, 0) *)
+Lemma inv_of_fwd_halfturn_zone_refuted :
+  exists r : vec3 R, 0 < vnorm ROps r < PI /\ PI - rod_small ROps < vnorm ROps r /\
+    forall proj, proj_ok proj -> exists v, rodrigues_inv ROps proj (rodrigues_fwd ROps r) = Some v /\ v <> r.
+Proof.
+  pose proof rod_small_pos as Hsm. pose proof rod_small_lt_1 as Hs1. pose proof PI2_1 as Hpi. pose proof rod_eps_lt_small as He.
+  pose proof rod_eps_pos as He0.
+  set (d := rod_small ROps / 2). set (t := PI - d).
+  assert (Ht : 0 < t < PI) by (subst t d; lra).
+  exists (V3 (- t) 0 0). rewrite vnorm_neg_x by lra. split; [exact Ht|]. split; [subst t d; lra|].
+  intros proj Hp.
+  assert (Hr : rod_eps ROps <= vnorm ROps (V3 (- t) 0 0) <= PI) by (rewrite vnorm_neg_x by lra; subst t d; lra).
+  destruct (fwd_inv_s_c _ Hr) as [Es Ec]. rewrite vnorm_neg_x in Es, Ec by lra.
+  assert (Hsin : sin t < rod_small ROps).
+  { subst t. rewrite sin_PI_x. pose proof (sin_lt_x d ltac:(subst d; lra)). subst d. lra. }
+  assert (Hcos : cos t <= 0).
+  { subst t. rewrite cos_minus, cos_PI, sin_PI. assert (0 < cos d) by (apply cos_gt_0; subst d; lra). lra. }
+  destruct (inv_halfturn_zone_first_nonneg proj _ Hp (fwd_proper (V3 (- t) 0 0))) as (v & Hv & Hvx);
+    [rewrite Es; exact Hsin | rewrite Ec; exact Hcos |].
+  exists v. split; [exact Hv|]. intros E. rewrite E in Hvx. cbn [vx] in Hvx. lra.
 Qed.
